@@ -97,6 +97,12 @@ CHECKS = {
         text='A pre-pass selects requests whose answer has several alternatives; each batch is answered twice in each of k fresh interpreters started with different hash seeds and different amounts of prior allocation; all serialised answers must be identical and alternative lists must be in source order. Order that depends on memory addresses or string hashing cannot be seen inside one test process; this check makes the process a generated input.',
         design_ref='DESIGN.md section 4 (C17)',
         note='k = 4 (quick) / 8 (thorough) processes; address-space layout is varied indirectly (prior allocation, ASLR), not controlled.'),
+    'C15': dict(
+        technique='stateful property-based testing (Hypothesis RuleBasedStateMachine) against a real server subprocess with an in-process mirror as reference model; fault rules injected at arbitrary indexes',
+        category='exploration',
+        text='Each generated operation sequence is sent through the real client to a real server process and evaluated in lockstep on an identical in-process Project; replies must be equal up to tuple->list, failures must surface on the client with the server-side message, and after every fault the next request must still be answered by the same live child. Payload sizes cross every msgpack length boundary up to 4 MiB.',
+        design_ref='DESIGN.md section 4 (C15)',
+        note='One server per sequence; the mirror uses supp.server.Server.process in-process (dispatch semantics) - the transport, serialisation fallback and loop are what is under test; quick tier runs without Hypothesis shrinking (sequences are <= 12 steps).'),
 }
 
 NOT_YET = 'check not built yet in this session (planned in DESIGN.md section 4); not claimed until its command exists'
